@@ -39,6 +39,10 @@ def set_parents(tree: ast.AST) -> None:
 
 def norm(node: ast.AST) -> str:
     """Normalised text of a construct (line-number free key for findings)."""
+    if isinstance(node, (ast.FunctionDef, ast.AsyncFunctionDef)):
+        return f"def {node.name}(...)"
+    if isinstance(node, ast.ClassDef):
+        return f"class {node.name}"
     try:
         text = ast.unparse(node)
     except Exception:  # pragma: no cover
